@@ -590,7 +590,7 @@ fn sweep_truncated(out: &mut Outputs, encs: &[Enc], thorough: bool) {
     out.add("sweep_truncated", prefixes);
     // 1..=3 flipped bytes, fixed seed
     let mut s: u64 = 0x9E37_79B9_7F4A_7C15;
-    let per = if thorough { 600 } else { 150 };
+    let per = if thorough { 4000 } else { 1000 };
     let mut flips = 0u64;
     for e in encs {
         for _ in 0..per {
